@@ -311,6 +311,31 @@ def main(tier):
             chk.violation("a second Description in %s (%s) is accepted: %s | document:\n%s" % (hn, form, rel.describe(kobs[cid]), text),
                           {"kind": "fault", "fault": {"f": "dup_child", "i": 0, "x": "Description"}, "via": "kernel", "doc": [], "main": text, "files": {},
                            "sites": [1], "block_spans": [[0, len(text)]], "observed": kobs[cid], "signature": sig}, sig)
+    # the directive that follows the text of a bare Description, its keyword directly followed by '#' or '//': a fault in
+    # it is reported like anywhere else (the line is a directive line, not text)
+    gk = {
+        "second_description": "JSIGHT 0.3\nINFO\n  Title \"T\"\n  Version 1\n  Description\n    first\n  Description# again\n    second\n",
+        "title_without_parameter": "JSIGHT 0.3\nINFO\n  Version 1\n  Description\n    text\n  Title# no parameter\n",
+        "second_query": "JSIGHT 0.3\nGET /zg\n  Query\n  {\n    \"a\": 1\n  }\n  Description\n    text\n  Query# again\n  {\n    \"b\": 1\n  }\n  200 any\n",
+        "request_undefined_type": "JSIGHT 0.3\nPOST /zg\n  Description\n    text\n  Request// note\n    Body @znosuchtype\n  200 any\n",
+        "duplicate_method": "JSIGHT 0.3\nURL /zg\n  GET\n    200 any\n  Description\n    text\n  GET// again\n    200 any\n",
+        "second_title_under_tag_description": "JSIGHT 0.3\nTAG @zt\n  Description\n    text\nTAG# no name\n",
+    }
+    gobs = harness("run", [rel.case("gk_" + k, t) for k, t in gk.items()] + [rel.case("gs_" + k, t.replace("# again", " # again").replace("# no", " # no").replace("// ", " // "))
+                                                                              for k, t in gk.items()])
+    for k, t in gk.items():
+        a, b = gobs["gs_" + k], gobs["gk_" + k]
+        if a["outcome"] != "error":
+            continue               # with a blank before the comment the document is not rejected either: nothing to demand
+        chk.evaluations += 1
+        chk.traces += 1
+        chk.nontrivial.add("glued:" + k)
+        if b["outcome"] != "error":
+            sig = {"fault": "glued:" + k, "via": "kernel", "what": "not rejected", "block": "", "detail": "", "outcome": b["outcome"], "msg": "", "frames": ""}
+            chk.violation("a faulty directive after a bare Description, its keyword glued to a comment (%s): %s; with a blank before the comment: %s | document:\n%s" % (
+                k, rel.describe(b), rel.describe(a), t),
+                {"kind": "fault", "fault": {"f": "glued", "i": 0, "x": k}, "via": "kernel", "doc": [], "main": t, "files": {}, "sites": [1],
+                 "block_spans": [[0, len(t)]], "observed": b, "signature": sig}, sig)
     import fixrel
     fixrel.c11(chk, tier)
     import pathspec
